@@ -9,6 +9,7 @@ import (
 	"io"
 	"iter"
 	"math/rand/v2"
+	"net"
 	"os"
 	"syscall"
 
@@ -52,7 +53,16 @@ type faultMode struct {
 // io.EOF value, so none of them is a clean end of data.
 var faultErrors = []error{errInjected, io.ErrUnexpectedEOF, io.ErrClosedPipe, io.ErrNoProgress,
 	fmt.Errorf("read tcp 10.0.0.1:443: connection closed by peer: %w", io.EOF), eofLike{}, errors.New("EOF"),
-	&os.PathError{Op: "read", Path: "/dev/stdin", Err: syscall.EIO}}
+	&os.PathError{Op: "read", Path: "/dev/stdin", Err: syscall.EIO},
+	// errors that describe themselves as temporary or as a timeout (Temporary() / Timeout() true): still failures
+	// of this stream as far as the decoder can know — nothing says a retry would succeed, and none is promised
+	syscall.EAGAIN, syscall.EINTR, os.ErrDeadlineExceeded, &net.OpError{Op: "read", Net: "tcp", Err: timeoutErr{}}}
+
+type timeoutErr struct{}
+
+func (timeoutErr) Error() string   { return "i/o timeout" }
+func (timeoutErr) Timeout() bool   { return true }
+func (timeoutErr) Temporary() bool { return true }
 
 type eofLike struct{}
 
